@@ -198,7 +198,16 @@ def run(ctx):
             break
         n = rnd.randint(2, 5)
         cs = gen.cands(rnd, n)
+        if rnd.random() < 0.3:
+            # names whose concatenations are ambiguous ("1"+"2" vs "12"): rankings must be told apart as tuples, not as text
+            cs = rnd.sample(["1", "2", "12", "21", "A", "B", "AB", "BA", "112"], n)
         specs = [gen.ranked(rnd, cs=cs, nb=rnd.randint(1, 5), wkind=rnd.choice(["int", "rat"])) for _ in range(3)]
+        if rnd.random() < 0.3 and n >= 3:
+            # look-alike pair cast in different profiles: a rotation of the same candidates
+            r0 = rnd.sample(cs, n)
+            specs[0]["ballots"].append(canon.spec_ballot(r=[[c] for c in r0], w=gen.weight(rnd, "rat")))
+            specs[1]["ballots"].append(canon.spec_ballot(r=[[c] for c in r0[1:] + r0[:1]], w=gen.weight(rnd, "rat")))
+            specs[2]["ballots"].append(canon.spec_ballot(r=[[c] for c in r0[-1:] + r0[:-1]], w=gen.weight(rnd, "rat")))
         if rnd.random() < 0.2:
             specs[1] = {"cands": cs, "ballots": list(reversed(specs[0]["ballots"]))}
         ctx.guard("lp", check_lp, ctx, {"kind": "lp", "profiles": specs})
